@@ -2428,7 +2428,7 @@ private:
 
         constexpr const term_subset& make_right_side_slice_first(const rule_info& ri, size_t start)
         {
-            size_t right_side_slice_idx = max_rule_element_count * ri.r_idx + start;
+            size_t right_side_slice_idx = situation_size * ri.r_idx + start;
             auto& res = right_side_slice_first[right_side_slice_idx];
 
             if (right_side_slice_first_analyzed.test(right_side_slice_idx))
